@@ -36,7 +36,6 @@ func runC20(r *Report, p *Program) {
 	c20R6(h)
 	c20R7(h)
 	bodyBypassRule(h, "R8", 1, func(t *types.Named) bool { return t.Obj().Name() == "ResponseRecorder" })
-	forwardedBytesCounted(h, "R8", "httpserver.ResponseRecorder", "size")
 }
 
 func c20R1(h H) {
@@ -241,7 +240,7 @@ func argKind(v ssa.Value) string {
 
 func c20R3(h H) {
 	r := h.r
-	r.Rule("R3", "the recorder sees everything: in log.Logger.ServeHTTP the Next invoke inside the rule loop and every fallback write (ErrorFunc, WriteHeader, Fprintf) receive the ResponseRecorder; ResponseRecorder.WriteHeader stores its status argument and delegates under no condition; ResponseRecorder.Write adds n to size on the err==nil edge only and delegates under no condition; {status} and {size} are computed from the recorder's status/size fields", 6)
+	r.Rule("R3", "the recorder sees everything: in log.Logger.ServeHTTP the Next invoke inside the rule loop and every fallback write (ErrorFunc, WriteHeader, Fprintf) receive the ResponseRecorder; the recorder and the placeholders as a table (E10): a recorder made by NewResponseRecorder, given a header and body writes (one of them failing) and — where it declares one — a ReadFrom, reports the status sent and the bytes the wrapped writer took, and {status} / {size} expand to exactly that", 4)
 	fn := h.fn("R3", logPkg, "Logger.ServeHTTP")
 	if fn != nil {
 		isRec := func(v ssa.Value) bool {
@@ -289,120 +288,16 @@ func c20R3(h H) {
 			r.Check(isRec(w), "R3", "log.Logger.ServeHTTP/fallback-through-recorder:"+shortCallee(in), in.Pos(), "the error response log generates itself is written through the recorder, so {status} and {size} describe it")
 		})
 	}
-	if wh := h.fn("R3", hs, "(*ResponseRecorder).WriteHeader"); wh != nil {
-		stored, delegated := false, false
-		uncond := true
-		allInstrs(wh, func(in ssa.Instruction) {
-			if st, ok := in.(*ssa.Store); ok {
-				if fa, ok := st.Addr.(*ssa.FieldAddr); ok && fieldName(fa.X.Type(), fa.Field) == "status" {
-					if _, isParam := st.Val.(*ssa.Parameter); isParam {
-						stored = true
-						if len(dominatingGuards(wh, nil, in)) > 0 {
-							uncond = false
-						}
-					}
-				}
-			}
-			if c := callOf(in); c != nil {
-				f := c.StaticCallee()
-				if (f != nil && f.Name() == "WriteHeader" && f != wh) || (c.IsInvoke() && c.Method.Name() == "WriteHeader") {
-					if _, isParam := c.Args[len(c.Args)-1].(*ssa.Parameter); isParam {
-						delegated = true
-						if len(dominatingGuards(wh, nil, in)) > 0 {
-							uncond = false
-						}
-					}
-				}
-			}
-		})
-		r.Check(stored && delegated && uncond && len(ifs(wh)) == 0, "R3", "httpserver.(*ResponseRecorder).WriteHeader/records-and-delegates-always", wh.Pos(), "every WriteHeader call updates the recorded status and reaches the client (1xx followed by a final status included)")
+	// the recorder itself and the two placeholders: decided as a table (E10, recorderTable)
+	t := recorderTable(h)
+	var pos token.Pos
+	if f := h.p.Func(hs, "(*ResponseRecorder).Write"); f != nil {
+		pos = f.Pos()
 	}
-	if wr := h.fn("R3", hs, "(*ResponseRecorder).Write"); wr != nil {
-		delegated, sized := false, false
-		uncond := true
-		var call ssa.Value
-		allInstrs(wr, func(in ssa.Instruction) {
-			if c := callOf(in); c != nil {
-				f := c.StaticCallee()
-				if (f != nil && f.Name() == "Write" && f != wr) || (c.IsInvoke() && c.Method.Name() == "Write") {
-					delegated = true
-					call, _ = in.(ssa.Value)
-					if len(dominatingGuards(wr, nil, in)) > 0 {
-						uncond = false
-					}
-				}
-			}
-		})
-		allInstrs(wr, func(in ssa.Instruction) {
-			st, ok := in.(*ssa.Store)
-			if !ok {
-				return
-			}
-			fa, ok := st.Addr.(*ssa.FieldAddr)
-			if !ok || fieldName(fa.X.Type(), fa.Field) != "size" {
-				return
-			}
-			b, ok := st.Val.(*ssa.BinOp)
-			if !ok || b.Op != token.ADD || !readsField(b.X, "size") {
-				return
-			}
-			if ex, ok := b.Y.(*ssa.Extract); ok && ex.Tuple == call && ex.Index == 0 {
-				gs := dominatingGuards(wr, nil, in)
-				if len(gs) == 1 {
-					if x, nilWhenTrue, ok := nilCmp(gs[0].Cond); ok && nilWhenTrue == gs[0].Pos {
-						if ex2, ok := x.(*ssa.Extract); ok && ex2.Tuple == call && ex2.Index == 1 {
-							sized = true
-						}
-					}
-				}
-				if len(gs) == 0 {
-					sized = true
-				}
-			}
-		})
-		r.Check(delegated && sized && uncond, "R3", "httpserver.(*ResponseRecorder).Write/counts-what-was-written", wr.Pos(), "the recorded size grows by exactly the byte count the underlying writer accepted")
-	}
-	if gs := h.fn("R3", hs, "(*replacer).getSubstitution"); gs != nil {
-		for _, spec := range [][2]string{{"{status}", "status"}, {"{size}", "size"}} {
-			ok := false
-			for _, i := range ifs(gs) {
-				_, eq, lit, isCmp := strCmp(i.Cond)
-				if !isCmp || lit != spec[0] {
-					continue
-				}
-				e := condEdge{i, eq}.edge()
-				s := e.From.Succs[e.Idx]
-				f := firstInstr(s)
-				visit := func(in ssa.Instruction) bool {
-					if rt, isR := in.(*ssa.Return); isR {
-						rv := rt.Results[0]
-						if c, isC := rv.(*ssa.Call); isC && calleeName(&c.Call) == "strconv.Itoa" {
-							if p, _ := fieldPath(c.Call.Args[0]); strings.HasSuffix(p, "responseRecorder."+spec[1]) {
-								ok = true
-							}
-							// or through the recorder's accessor method, which returns exactly that field
-							if ac, isCall := c.Call.Args[0].(*ssa.Call); isCall && len(ac.Call.Args) == 1 {
-								if p, _ := fieldPath(ac.Call.Args[0]); strings.HasSuffix(p, "responseRecorder") && accessorOf(ac.Call.StaticCallee()) == spec[1] {
-									ok = true
-								}
-							}
-						}
-					}
-					return true
-				}
-				if f != nil && visit(f) {
-					reach(gs, f, cut{instr: func(in ssa.Instruction) bool {
-						if ii, isIf := in.(*ssa.If); isIf {
-							_, _, _, isStr := strCmp(ii.Cond)
-							return isStr
-						}
-						return false
-					}}, visit)
-				}
-			}
-			r.Check(ok, "R3", "httpserver.(*replacer).getSubstitution/"+spec[0]+"-from-recorder", gs.Pos(), spec[0]+" is the recorder's own "+spec[1]+" field")
-		}
-	}
+	n := sprintf("%d scenarios evaluated", t.n)
+	r.Check(t.status == "" && t.other == "", "R3", "httpserver.(*ResponseRecorder).WriteHeader/records-and-delegates-always", pos, "the recorded status is the one sent to the client (200 when none was written explicitly)", n, t.status, t.other)
+	r.Check(t.size == "" && t.other == "", "R3", "httpserver.(*ResponseRecorder).Write/counts-what-was-written", pos, "the recorded size is the number of body bytes the wrapped writer took", n, t.size, t.other)
+	r.Check(t.subst == "" && t.other == "", "R3", "httpserver.(*replacer).getSubstitution/{status}-{size}-from-recorder", pos, "{status} and {size} expand to what the recorder saw", n, t.subst, t.other)
 }
 
 func c20R4(h H) {
